@@ -1,37 +1,58 @@
-(* PropC12.v — how a block ends (model: Capture.v).
+(* PropC12.v — how a block ends (model: Capture.v, after the repair of the teardown race).
 
    "A blocked command with timeout t > 0 completes with a null reply no earlier than t after it
     was issued ..., while timeout 0 waits indefinitely. CLIENT UNBLOCK id ends exactly that
     client's block and reports 1 only if the client was actually blocked; ... After a block ends
     in any of these ways the connection processes further commands normally (including blocking
-    again)." *)
+    again)."
+
+   The record [cap] has a fourth field [c_closing] (the connection was asked to close; never
+   reset) and there is the operation [OCloseReq] (teardown: sets [c_closing] and posts RTimeout
+   like an unblock); a capture on a connection that is already closing posts the message itself.
+   Statements that mentioned [mkCap a b c] carry the fourth field now; statements over all
+   operations cover [OCloseReq]; sections 1b/3b/3c are new. *)
 From RE Require Import Base Capture.
-From Coq Require Import List Lia ZArith QArith Qround.
+From Coq Require Import List Lia ZArith QArith Qround Bool.
 Import ListNotations.
 Open Scope list_scope.
 
 (* ---------- 1. the invariant ---------- *)
+(* third clause (new): a captured client of a closing connection always has its unblock posted *)
 Definition cap_inv (c : cap) : Prop :=
   (c_mail c <> None -> c_blocked c = true /\ c_pending c = true) /\
-  (c_blocked c = false -> c_pending c = false /\ c_mail c = None).
+  (c_blocked c = false -> c_pending c = false /\ c_mail c = None) /\
+  (c_closing c = true -> c_blocked c = true -> c_pending c = true).
+
+(* the same as a boolean, so that preservation is a finite check *)
+Definition cap_ok (c : cap) : bool :=
+  (match c_mail c with Some _ => c_blocked c && c_pending c | None => true end) &&
+  (c_blocked c || (negb (c_pending c) && match c_mail c with None => true | Some _ => false end)) &&
+  (negb (c_closing c) || negb (c_blocked c) || c_pending c).
+
+Lemma cap_ok_spec c : cap_inv c <-> cap_ok c = true.
+Proof.
+  destruct c as [[|] [|] [r|] [|]]; unfold cap_inv, cap_ok; cbn; split; intro H;
+    try reflexivity; try discriminate H;
+    try (intuition congruence);
+    try (exfalso; destruct H as (H1 & H2 & H3);
+         first [ specialize (H3 eq_refl eq_refl); congruence
+               | destruct (H2 eq_refl); congruence
+               | destruct (H1 ltac:(congruence)); congruence ]).
+Qed.
 
 Lemma cap_inv0 : cap_inv cap0.
-Proof. split; simpl; intro H; [congruence | auto]. Qed.
+Proof. apply cap_ok_spec. reflexivity. Qed.
+
+Lemma cstep_ok c o c' x : cap_ok c = true -> cstep c o = Some (c', x) -> cap_ok c' = true.
+Proof.
+  intros Hi Hs. destruct c as [b p ml cl].
+  destruct o as [| | |r| |]; destruct b; destruct p; destruct ml as [r0|]; destruct cl;
+    cbn in Hi; try discriminate Hi; cbn in Hs; try discriminate Hs;
+    inversion Hs; subst; reflexivity.
+Qed.
 
 Lemma cstep_inv c o c' x : cap_inv c -> cstep c o = Some (c', x) -> cap_inv c'.
-Proof.
-  intros [H1 H2] Hs. destruct c as [b p ml]; simpl in *.
-  destruct o as [| | |r|]; simpl in Hs.
-  - destruct b; [discriminate|]. inversion Hs; subst; clear Hs.
-    destruct (H2 eq_refl) as [-> ->]. split; simpl; intro H; [congruence | discriminate].
-  - destruct b; [|discriminate]. destruct ml as [r|]; [|discriminate].
-    inversion Hs; subst; clear Hs. split; simpl; intro H; [congruence | discriminate].
-  - destruct b; [|discriminate]. inversion Hs; subst; clear Hs. apply cap_inv0.
-  - destruct b.
-    + destruct p; inversion Hs; subst; clear Hs; split; simpl; intro H; auto; discriminate.
-    + inversion Hs; subst; clear Hs. split; simpl; auto.
-  - inversion Hs; subst; clear Hs. split; simpl; auto.
-Qed.
+Proof. intros Hi Hs. apply cap_ok_spec. apply cap_ok_spec in Hi. eapply cstep_ok; eauto. Qed.
 
 Lemma crun_cons c o os c' rs :
   crun c (o :: os) = Some (c', rs) ->
@@ -51,44 +72,107 @@ Proof.
 Qed.
 
 (* Whatever the blocking goroutine and any number of other goroutines (CLIENT UNBLOCK, teardown,
-   CLIENT LIST) do, in any interleaving:
+   CLIENT LIST) do, in any interleaving (runs with OCloseReq included):
    - a message is in the mailbox only while the client is captured and an unblock is pending;
    - an uncaptured client has no pending flag and an empty mailbox, so no stale unblock can end
      a LATER block;
-   - a message in the mailbox is never overwritten (one slot is enough, the sender never blocks). *)
+   - a message in the mailbox is never overwritten, neither by CLIENT UNBLOCK nor by the teardown
+     (one slot is enough, the sender never blocks);
+   - (new) on a closing connection a captured client always has an unblock posted. *)
 Theorem C12_invariant os c rs :
   crun cap0 os = Some (c, rs) ->
   (c_mail c <> None -> c_blocked c = true /\ c_pending c = true) /\
   (c_blocked c = false -> c_pending c = false /\ c_mail c = None) /\
-  (forall r r', c_mail c = Some r -> cstep c (OUnblock r') = Some (c, CBool true)).
+  (forall r r', c_mail c = Some r -> cstep c (OUnblock r') = Some (c, CBool true)) /\
+  (forall r, c_mail c = Some r -> cstep c OCloseReq = Some (mkCap true true (Some r) true, CBool true)) /\
+  (c_closing c = true -> c_blocked c = true -> c_pending c = true).
 Proof.
-  intro Hr. destruct (crun_inv os _ _ _ cap_inv0 Hr) as [H1 H2].
-  split; [exact H1|]. split; [exact H2|].
-  intros r r' Hm. destruct (H1 ltac:(congruence)) as [Hb Hp].
-  unfold cstep. rewrite Hb, Hp. reflexivity.
+  intro Hr. destruct (crun_inv os _ _ _ cap_inv0 Hr) as (H1 & H2 & H3).
+  split; [exact H1|]. split; [exact H2|]. split; [|split; [|exact H3]].
+  - intros r r' Hm. destruct (H1 ltac:(congruence)) as [Hb Hp].
+    unfold cstep. rewrite Hb, Hp. reflexivity.
+  - intros r Hm. destruct (H1 ltac:(congruence)) as [Hb Hp].
+    unfold cstep. rewrite Hb, Hp, Hm. reflexivity.
 Qed.
 Print Assumptions C12_invariant.
 
 Example C12_invariant_ex :
   crun cap0 [OUnblock RError; OCapture; OIsBlocked; OUnblock RTimeout; OUnblock RError; ORecv; OUnblock RError;
              ORelease; OUnblock RError; OCapture; OIsBlocked]
-  = Some (mkCap true false None,
+  = Some (mkCap true false None false,
           [CBool false; CNone; CBool true; CBool true; CBool true; CReason RTimeout; CBool true;
            CNone; CBool false; CNone; CBool true]).
 Proof. reflexivity. Qed.
+
+(* with the teardown in the run: the first message (RError) is not overwritten by the close
+   request, and the next capture on the closing connection gets RTimeout at once *)
+Example C12_invariant_close_ex :
+  crun cap0 [OCapture; OUnblock RError; OCloseReq; OIsBlocked; ORecv; OCloseReq; ORelease;
+             OCapture; ORecv; ORelease; OIsBlocked]
+  = Some (mkCap false false None true,
+          [CNone; CBool true; CBool true; CBool true; CReason RError; CBool true; CNone;
+           CNone; CReason RTimeout; CNone; CBool false]).
+Proof. reflexivity. Qed.
+
+(* ---------- 1b. the closing flag ---------- *)
+Definition is_close (o : cop) : bool := match o with OCloseReq => true | _ => false end.
+
+Lemma cstep_closing c o c' x : cstep c o = Some (c', x) -> c_closing c' = c_closing c || is_close o.
+Proof.
+  intro Hs. destruct c as [b p ml cl].
+  destruct o as [| | |r| |]; destruct b; destruct p; destruct ml as [r0|]; destruct cl;
+    cbn in Hs; try discriminate Hs; inversion Hs; subst; reflexivity.
+Qed.
+
+Lemma crun_closing os : forall c c' rs,
+  crun c os = Some (c', rs) -> c_closing c' = c_closing c || existsb is_close os.
+Proof.
+  induction os as [|o os IH]; intros c c' rs Hr.
+  - simpl in Hr. inversion Hr; subst. simpl. rewrite orb_false_r. reflexivity.
+  - apply crun_cons in Hr as (c1 & x & rs' & Hs & Hr & _).
+    rewrite (IH _ _ _ Hr), (cstep_closing _ _ _ _ Hs). simpl. rewrite orb_assoc. reflexivity.
+Qed.
+
+(* [c_closing] is never reset: by no operation, from no state (reachable or not), hence it is
+   monotone along every run; precisely, after a run it is set iff it was set before or the run
+   contains an OCloseReq. *)
+Theorem C12_closing_forever :
+  (forall c o c' x, cstep c o = Some (c', x) -> c_closing c = true -> c_closing c' = true) /\
+  (forall os c c' rs, crun c os = Some (c', rs) -> c_closing c = true -> c_closing c' = true) /\
+  (forall os1 os2 c c1 rs1 c2 rs2,
+      crun c os1 = Some (c1, rs1) -> crun c (os1 ++ os2) = Some (c2, rs2) ->
+      c_closing c1 = true -> c_closing c2 = true) /\
+  (forall os c rs, crun cap0 os = Some (c, rs) -> c_closing c = existsb is_close os).
+Proof.
+  split; [|split; [|split]].
+  - intros c o c' x Hs Hc. rewrite (cstep_closing _ _ _ _ Hs), Hc. reflexivity.
+  - intros os c c' rs Hr Hc. rewrite (crun_closing _ _ _ _ Hr), Hc. reflexivity.
+  - intros os1 os2 c c1 rs1 c2 rs2 H1 H2 Hc.
+    rewrite (crun_closing _ _ _ _ H2). rewrite (crun_closing _ _ _ _ H1) in Hc.
+    rewrite existsb_app, orb_assoc, Hc. reflexivity.
+  - intros os c rs Hr. rewrite (crun_closing _ _ _ _ Hr). reflexivity.
+Qed.
+Print Assumptions C12_closing_forever.
+
+Example C12_closing_forever_ex :
+  crun cap0 [OCloseReq; OCapture; ORecv; ORelease; OUnblock RError; OCapture; OUnblock RError; ORecv; ORelease]
+  = Some (mkCap false false None true,
+          [CBool false; CNone; CReason RTimeout; CNone; CBool false; CNone; CBool true; CReason RTimeout; CNone]).
+Proof. vm_compute. reflexivity. Qed.
 
 (* ---------- 2. CLIENT UNBLOCK reports whether the client was blocked ---------- *)
 Theorem C12_unblock_reports_blocked c r c' x :
   cstep c (OUnblock r) = Some (c', x) ->
   x = CBool (c_blocked c) /\
   (c_blocked c = false -> c' = c) /\
-  (c_blocked c = true -> c_blocked c' = true /\ c_pending c' = true).
+  (c_blocked c = true -> c_blocked c' = true /\ c_pending c' = true) /\
+  c_closing c' = c_closing c.
 Proof.
   unfold cstep. destruct (c_blocked c) eqn:Hb.
   - destruct (c_pending c) eqn:Hp; intro H; inversion H; subst; clear H.
     + split; [reflexivity|]. split; [discriminate|]. auto.
     + split; [reflexivity|]. split; [discriminate|]. auto.
-  - intro H; inversion H; subst. split; [reflexivity|]. split; auto. discriminate.
+  - intro H; inversion H; subst. split; [reflexivity|]. split; auto. split; [discriminate|reflexivity].
 Qed.
 Print Assumptions C12_unblock_reports_blocked.
 
@@ -99,6 +183,45 @@ Proof.
   intro H. destruct (C12_unblock_reports_blocked _ _ _ _ H) as (H1 & H2 & _).
   inversion H1. auto.
 Qed.
+Print Assumptions C12_unblock_bool.
+
+(* the teardown: always enabled; its result is the blocked flag; it sets [c_closing]; when the
+   client is not blocked it changes nothing else; when the client is blocked it stays blocked,
+   an unblock is pending afterwards, and the mailbox is written (with RTimeout) only if no unblock
+   was pending before — otherwise it is left as it is *)
+Theorem C12_close_reports_blocked c :
+  exists c', cstep c OCloseReq = Some (c', CBool (c_blocked c)) /\
+    c_closing c' = true /\
+    c_blocked c' = c_blocked c /\
+    (c_blocked c = false -> c' = mkCap false (c_pending c) (c_mail c) true /\
+                            c_pending c' = c_pending c /\ c_mail c' = c_mail c) /\
+    (c_blocked c = true -> c_blocked c' = true /\ c_pending c' = true /\
+                           c_mail c' = if c_pending c then c_mail c else Some RTimeout).
+Proof.
+  unfold cstep. destruct (c_blocked c) eqn:Hb; [destruct (c_pending c) eqn:Hp|];
+    eexists; (split; [reflexivity|]); cbn; repeat split; try reflexivity; try discriminate.
+Qed.
+Print Assumptions C12_close_reports_blocked.
+
+(* functional form *)
+Corollary C12_close_result c c' x :
+  cstep c OCloseReq = Some (c', x) ->
+  x = CBool (c_blocked c) /\ c_closing c' = true /\ c_blocked c' = c_blocked c /\
+  (c_blocked c = false -> c_pending c' = c_pending c /\ c_mail c' = c_mail c) /\
+  (c_blocked c = true -> c_pending c' = true).
+Proof.
+  intro Hs. destruct (C12_close_reports_blocked c) as (c2 & Hs2 & Hc & Hb & Hf & Ht).
+  rewrite Hs in Hs2. inversion Hs2; subst. split; [reflexivity|]. split; [exact Hc|]. split; [exact Hb|].
+  split; [intro H; apply Hf; exact H | intro H; apply Ht; exact H].
+Qed.
+Print Assumptions C12_close_result.
+
+Example C12_close_reports_blocked_ex :
+  cstep cap0 OCloseReq = Some (mkCap false false None true, CBool false) /\
+  cstep (mkCap true false None false) OCloseReq = Some (mkCap true true (Some RTimeout) true, CBool true) /\
+  cstep (mkCap true true (Some RError) false) OCloseReq = Some (mkCap true true (Some RError) true, CBool true) /\
+  cstep (mkCap true true None false) OCloseReq = Some (mkCap true true None true, CBool true).
+Proof. vm_compute. repeat split. Qed.
 
 (* unblocking changes only the one client it is applied to: the operation acts on one [cap]
    record; two clients are two records (product state) *)
@@ -113,7 +236,7 @@ Proof.
 Qed.
 Print Assumptions C12_unblock_exactly_that_client.
 
-(* ---------- 3. at most one delivery per capture, and it is the first unblock ---------- *)
+(* ---------- 3. at most one delivery per capture, and it is the first message posted ---------- *)
 Fixpoint received (rs : list cres) : list reason :=
   match rs with
   | [] => []
@@ -121,6 +244,8 @@ Fixpoint received (rs : list cres) : list reason :=
   | _ :: t => received t
   end.
 
+(* the first OUnblock of a segment (the notion of the statement before the repair; kept for the
+   corollary about runs without teardown) *)
 Fixpoint first_unblock (os : list cop) : option reason :=
   match os with
   | [] => None
@@ -128,49 +253,78 @@ Fixpoint first_unblock (os : list cop) : option reason :=
   | _ :: t => first_unblock t
   end.
 
+(* the first message posted by an operation of a segment: OUnblock r posts r, OCloseReq posts RTimeout *)
+Fixpoint first_post (os : list cop) : option reason :=
+  match os with
+  | [] => None
+  | OUnblock r :: _ => Some r
+  | OCloseReq :: _ => Some RTimeout
+  | _ :: t => first_post t
+  end.
+
+(* the first message posted for a capture: the capture itself posts RTimeout when the connection
+   is closing already *)
+Definition first_posted (closing_at_capture : bool) (seg : list cop) : option reason :=
+  if closing_at_capture then Some RTimeout else first_post seg.
+
 Definition no_release (os : list cop) : Prop := ~ In ORelease os.
 
+(* what can be said at the end of a release-free segment of one capture, given the first message
+   [fp] posted for it and the messages [rcv] received in it *)
+Definition seg_outcome (fp : option reason) (c : cap) (rcv : list reason) : Prop :=
+  c_blocked c = true /\
+  match fp with
+  | None => rcv = [] /\ c_pending c = false /\ c_mail c = None /\ c_closing c = false
+  | Some r => c_pending c = true /\
+              ((rcv = [] /\ c_mail c = Some r) \/ (rcv = [r] /\ c_mail c = None))
+  end.
+
 (* after the message was taken: nothing more is received during this capture *)
-Lemma seg_after_recv os : forall c rs,
-  no_release os -> crun (mkCap true true None) os = Some (c, rs) -> received rs = [].
+Lemma seg_after_recv os : forall cl c rs,
+  no_release os -> crun (mkCap true true None cl) os = Some (c, rs) ->
+  received rs = [] /\ c_blocked c = true /\ c_pending c = true /\ c_mail c = None.
 Proof.
-  induction os as [|o os IH]; intros c rs Hn Hr.
-  - simpl in Hr. inversion Hr; reflexivity.
+  induction os as [|o os IH]; intros cl c rs Hn Hr.
+  - simpl in Hr. inversion Hr; subst. simpl. auto.
   - apply crun_cons in Hr as (c1 & x & rs' & Hs & Hr & ->).
     assert (Hn' : no_release os) by (intro Hin; apply Hn; right; exact Hin).
-    destruct o as [| | |r|]; simpl in Hs; try discriminate.
+    destruct o as [| | |r| |]; simpl in Hs; try discriminate.
     + exfalso. apply Hn. left; reflexivity.
+    + inversion Hs; subst. simpl. eapply IH; eauto.
     + inversion Hs; subst. simpl. eapply IH; eauto.
     + inversion Hs; subst. simpl. eapply IH; eauto.
 Qed.
 
-Lemma seg_mail os : forall r c rs,
-  no_release os -> crun (mkCap true true (Some r)) os = Some (c, rs) ->
-  received rs = [] \/ received rs = [r].
+Lemma seg_mail os : forall r cl c rs,
+  no_release os -> crun (mkCap true true (Some r) cl) os = Some (c, rs) ->
+  seg_outcome (Some r) c (received rs).
 Proof.
-  induction os as [|o os IH]; intros r c rs Hn Hr.
-  - simpl in Hr. inversion Hr; auto.
+  induction os as [|o os IH]; intros r cl c rs Hn Hr.
+  - simpl in Hr. inversion Hr; subst. unfold seg_outcome. simpl. auto.
   - apply crun_cons in Hr as (c1 & x & rs' & Hs & Hr & ->).
     assert (Hn' : no_release os) by (intro Hin; apply Hn; right; exact Hin).
-    destruct o as [| | |r'|]; simpl in Hs; try discriminate.
-    + inversion Hs; subst. simpl. right. f_equal. eapply seg_after_recv; eauto.
+    destruct o as [| | |r'| |]; simpl in Hs; try discriminate.
+    + inversion Hs; subst. simpl.
+      destruct (seg_after_recv _ _ _ _ Hn' Hr) as (H1 & H2 & H3 & H4).
+      unfold seg_outcome. rewrite H1. auto.
     + exfalso. apply Hn. left; reflexivity.
+    + inversion Hs; subst. simpl. eapply IH; eauto.
     + inversion Hs; subst. simpl. eapply IH; eauto.
     + inversion Hs; subst. simpl. eapply IH; eauto.
 Qed.
 
 Lemma seg_fresh os : forall c rs,
-  no_release os -> crun (mkCap true false None) os = Some (c, rs) ->
-  received rs = [] \/ exists r, first_unblock os = Some r /\ received rs = [r].
+  no_release os -> crun (mkCap true false None false) os = Some (c, rs) ->
+  seg_outcome (first_post os) c (received rs).
 Proof.
   induction os as [|o os IH]; intros c rs Hn Hr.
-  - simpl in Hr. inversion Hr; auto.
+  - simpl in Hr. inversion Hr; subst. unfold seg_outcome. simpl. auto.
   - apply crun_cons in Hr as (c1 & x & rs' & Hs & Hr & ->).
     assert (Hn' : no_release os) by (intro Hin; apply Hn; right; exact Hin).
-    destruct o as [| | |r'|]; simpl in Hs; try discriminate.
+    destruct o as [| | |r'| |]; simpl in Hs; try discriminate.
     + exfalso. apply Hn. left; reflexivity.
-    + inversion Hs; subst. simpl.
-      destruct (seg_mail _ _ _ _ Hn' Hr) as [H|H]; [left; exact H | right; exists r'; auto].
+    + inversion Hs; subst. simpl. eapply seg_mail; eauto.
+    + inversion Hs; subst. simpl. eapply seg_mail; eauto.
     + inversion Hs; subst. simpl. eapply IH; eauto.
 Qed.
 
@@ -186,110 +340,391 @@ Proof.
     exists c2, (x :: rs1), rs2. simpl. rewrite Hs, H1. simpl. auto.
 Qed.
 
-(* In any run from the initial state, consider one capture: the OCapture at position [length pre]
-   followed by a segment [seg] without ORelease. The results of the segment contain at most one
-   received message, and it is the reason of the FIRST OUnblock issued during this capture —
-   unblocks issued before the capture (in [pre], whatever it contains) are never received. *)
+Lemma skipn_seg (rs1 : list cres) x rs' n : length rs1 = n -> skipn (S n) (rs1 ++ x :: rs') = rs'.
+Proof. intros <-. induction rs1 as [|a l IH]; [reflexivity | exact IH]. Qed.
+
+(* The complete description of one capture. In any run from the initial state, consider the
+   OCapture at position [length pre] followed by a segment [seg] without ORelease. Let [fp] be the
+   first message posted for this capture: RTimeout by the capture itself if a close request was
+   issued before it (anywhere in [pre]), otherwise that of the first OUnblock r (r) or OCloseReq
+   (RTimeout) of the segment. Then at the end the client is captured and
+   - if nothing was posted: nothing was received, nothing is pending, the connection is not closing;
+   - if [fp = Some r]: an unblock is pending and either r is still in the mailbox and nothing was
+     received, or exactly r was received and the mailbox is empty.
+   Unblocks issued before the capture (in [pre], whatever it contains) are never received. *)
+Theorem C12_capture_segment pre seg c rs :
+  crun cap0 (pre ++ OCapture :: seg) = Some (c, rs) -> no_release seg ->
+  seg_outcome (first_posted (existsb is_close pre) seg) c (received (skipn (S (length pre)) rs)).
+Proof.
+  intros Hr Hn. apply crun_app in Hr as (c1 & rs1 & rs2 & H1 & H2 & -> & Hl).
+  apply crun_cons in H2 as (c2 & x & rs' & Hs & H2 & ->).
+  rewrite (skipn_seg _ _ _ _ Hl).
+  destruct (crun_inv _ _ _ _ cap_inv0 H1) as (_ & Hi & _).
+  pose proof (crun_closing _ _ _ _ H1) as Hcl. simpl in Hcl. rewrite <- Hcl.
+  destruct c1 as [b p ml cl]. simpl in Hi, Hs |- *.
+  destruct b; [discriminate|]. destruct (Hi eq_refl) as [-> ->].
+  destruct cl; simpl in Hs; inversion Hs; subst c2 x; clear Hs.
+  - unfold first_posted. eapply seg_mail; eauto.
+  - unfold first_posted. eapply seg_fresh; eauto.
+Qed.
+Print Assumptions C12_capture_segment.
+
+(* Within one capture at most one message is ever received, whichever mix of OUnblock r and
+   OCloseReq was issued, and it is the first one posted (statement of before the repair with
+   [first_unblock seg] replaced by [first_posted (existsb is_close pre) seg]: the old statement is
+   false now, e.g. [OCapture; OCloseReq; ORecv] receives RTimeout although the segment has no
+   OUnblock, and so does [OCloseReq; OCapture; ORecv]). *)
 Theorem C12_unblock_delivered_once pre seg c rs :
   crun cap0 (pre ++ OCapture :: seg) = Some (c, rs) -> no_release seg ->
   let seg_results := skipn (S (length pre)) rs in
   received seg_results = [] \/
-  exists r, first_unblock seg = Some r /\ received seg_results = [r].
+  exists r, first_posted (existsb is_close pre) seg = Some r /\ received seg_results = [r].
 Proof.
-  intros Hr Hn. apply crun_app in Hr as (c1 & rs1 & rs2 & H1 & H2 & -> & Hl).
-  apply crun_cons in H2 as (c2 & x & rs' & Hs & H2 & ->).
-  destruct (crun_inv _ _ _ _ cap_inv0 H1) as [_ Hi].
-  unfold cstep in Hs. destruct (c_blocked c1) eqn:Hb; [discriminate|].
-  destruct (Hi eq_refl) as [Hp Hm]. rewrite Hp, Hm in Hs. inversion Hs; subst c2 x; clear Hs.
-  cbv zeta.
-  replace (skipn (S (length pre)) (rs1 ++ CNone :: rs')) with rs'.
-  - eapply seg_fresh; eauto.
-  - rewrite <- Hl. replace (rs1 ++ CNone :: rs') with ((rs1 ++ [CNone]) ++ rs') by (rewrite <- app_assoc; reflexivity).
-    replace (S (length rs1)) with (length (rs1 ++ [CNone])) by (rewrite app_length; simpl; lia).
-    rewrite skipn_app, skipn_all, Nat.sub_diag. reflexivity.
+  intros Hr Hn. cbv zeta. destruct (C12_capture_segment _ _ _ _ Hr Hn) as [_ H].
+  destruct (first_posted (existsb is_close pre) seg) as [r|].
+  - destruct H as [_ [[H _]|[H _]]]; [left; exact H | right; exists r; auto].
+  - left. apply H.
 Qed.
 Print Assumptions C12_unblock_delivered_once.
 
+(* the statement of before the repair, literally, for runs without teardown *)
+Lemma first_post_noclose os : existsb is_close os = false -> first_post os = first_unblock os.
+Proof.
+  induction os as [|o os IH]; [reflexivity|]. simpl. intro H. apply orb_false_iff in H as [H1 H2].
+  destruct o; try discriminate; auto.
+Qed.
+
+Corollary C12_unblock_delivered_once_noclose pre seg c rs :
+  crun cap0 (pre ++ OCapture :: seg) = Some (c, rs) -> no_release seg ->
+  existsb is_close (pre ++ seg) = false ->
+  let seg_results := skipn (S (length pre)) rs in
+  received seg_results = [] \/
+  exists r, first_unblock seg = Some r /\ received seg_results = [r].
+Proof.
+  intros Hr Hn Hc. rewrite existsb_app in Hc. apply orb_false_iff in Hc as [Hc1 Hc2].
+  pose proof (C12_unblock_delivered_once _ _ _ _ Hr Hn) as H. cbv zeta in *.
+  rewrite Hc1 in H. unfold first_posted in H. rewrite (first_post_noclose _ Hc2) in H. exact H.
+Qed.
+Print Assumptions C12_unblock_delivered_once_noclose.
+
 Example C12_delivered_once_ex :
   crun cap0 ([OUnblock RError] ++ OCapture :: [OUnblock RTimeout; OUnblock RError; ORecv; OUnblock RError])
-  = Some (mkCap true true None, [CBool false; CNone; CBool true; CBool true; CReason RTimeout; CBool true]) /\
+  = Some (mkCap true true None false, [CBool false; CNone; CBool true; CBool true; CReason RTimeout; CBool true]) /\
   first_unblock [OUnblock RTimeout; OUnblock RError; ORecv; OUnblock RError] = Some RTimeout.
 Proof. split; reflexivity. Qed.
+
+(* mixes of OUnblock and OCloseReq: the first one posted wins, the other is absorbed *)
+Example C12_delivered_once_close_ex :
+  crun cap0 ([OUnblock RError] ++ OCapture :: [OUnblock RError; OCloseReq; ORecv; OCloseReq; OUnblock RError])
+  = Some (mkCap true true None true,
+          [CBool false; CNone; CBool true; CBool true; CReason RError; CBool true; CBool true]) /\
+  first_posted (existsb is_close [OUnblock RError]) [OUnblock RError; OCloseReq; ORecv; OCloseReq; OUnblock RError]
+  = Some RError /\
+  crun cap0 ([] ++ OCapture :: [OCloseReq; OUnblock RError; ORecv; OUnblock RError])
+  = Some (mkCap true true None true, [CNone; CBool true; CBool true; CReason RTimeout; CBool true]) /\
+  first_posted (existsb is_close []) [OCloseReq; OUnblock RError; ORecv; OUnblock RError] = Some RTimeout /\
+  crun cap0 ([OCloseReq] ++ OCapture :: [OUnblock RError; ORecv; OUnblock RError])
+  = Some (mkCap true true None true, [CBool false; CNone; CBool true; CReason RTimeout; CBool true]) /\
+  first_posted (existsb is_close [OCloseReq]) [OUnblock RError; ORecv; OUnblock RError] = Some RTimeout.
+Proof. vm_compute. repeat split. Qed.
 
 (* a message can only be received after it was sent: ORecv is refused while the mailbox is empty *)
 Theorem C12_recv_needs_message c : c_mail c = None -> cstep c ORecv = None.
 Proof. intro H. unfold cstep. rewrite H. destruct (c_blocked c); reflexivity. Qed.
 Print Assumptions C12_recv_needs_message.
 
+(* ---------- 3b. a closed connection never waits ---------- *)
+(* the step: a command that starts to wait on a connection that was asked to close finds its
+   unblock message posted at once *)
+Theorem C12_closed_never_waits_step c :
+  c_closing c = true -> c_blocked c = false -> c_pending c = false ->
+  cstep c OCapture = Some (mkCap true true (Some RTimeout) true, CNone).
+Proof. intros Hc Hb Hp. unfold cstep. rewrite Hb, Hc, Hp. reflexivity. Qed.
+Print Assumptions C12_closed_never_waits_step.
+
+(* in every reachable state of a closing connection: a captured client has an unblock posted for
+   this capture (so the wait is over: see C12_closed_wait_has_message for where the message is),
+   and an uncaptured client will get RTimeout posted by its next capture *)
+Theorem C12_closed_never_waits os c rs :
+  crun cap0 os = Some (c, rs) -> c_closing c = true ->
+  (c_blocked c = true -> c_pending c = true) /\
+  (c_blocked c = false ->
+   cstep c OCapture = Some (mkCap true true (Some RTimeout) true, CNone) /\
+   crun c [OCapture; ORecv; ORelease] = Some (c, [CNone; CReason RTimeout; CNone])).
+Proof.
+  intros Hr Hc. destruct (crun_inv _ _ _ _ cap_inv0 Hr) as (_ & H2 & H3).
+  split; [intro Hb; apply H3; assumption|].
+  intro Hb. destruct (H2 Hb) as [Hp Hm].
+  split; [apply C12_closed_never_waits_step; assumption|].
+  destruct c as [b p ml cl]. simpl in *. subst. reflexivity.
+Qed.
+Print Assumptions C12_closed_never_waits.
+
+Lemma cstep_reason c o c' r : cstep c o = Some (c', CReason r) -> o = ORecv.
+Proof.
+  destruct o as [| | |r'| |]; [| reflexivity | | | |]; unfold cstep; intro H; exfalso;
+    repeat match type of H with
+           | context [if ?b then _ else _] => destruct b
+           end; discriminate H.
+Qed.
+
+Lemma no_recv_nothing_received os : forall c c' rs,
+  ~ In ORecv os -> crun c os = Some (c', rs) -> received rs = [].
+Proof.
+  induction os as [|o os IH]; intros c c' rs Hn Hr.
+  - simpl in Hr. inversion Hr; reflexivity.
+  - apply crun_cons in Hr as (c1 & x & rs' & Hs & Hr & ->).
+    assert (Hn' : ~ In ORecv os) by (intro Hin; apply Hn; right; exact Hin).
+    destruct x as [|b|r]; simpl; try (eapply IH; eauto).
+    exfalso. apply Hn. left. eapply cstep_reason; eauto.
+Qed.
+
+(* where the message is. Consider one capture (as in C12_capture_segment) and suppose the
+   connection is closing at the end of the segment (the close request may have come before the
+   capture or during it). Then a message r — the first one posted — EITHER is in the mailbox, the
+   blocking command has received nothing yet and its ORecv is enabled and yields r, OR was
+   received already (exactly once) and the mailbox is empty. [c_mail c = None] is possible only
+   after an ORecv since the capture: if the segment has no ORecv the first case holds. *)
+Theorem C12_closed_wait_has_message pre seg c rs :
+  crun cap0 (pre ++ OCapture :: seg) = Some (c, rs) -> no_release seg -> c_closing c = true ->
+  let seg_results := skipn (S (length pre)) rs in
+  exists r, first_posted (existsb is_close pre) seg = Some r /\
+    ((c_mail c = Some r /\ received seg_results = [] /\
+      cstep c ORecv = Some (mkCap true true None true, CReason r)) \/
+     (c_mail c = None /\ received seg_results = [r] /\ In ORecv seg)) /\
+    (~ In ORecv seg -> c_mail c = Some r).
+Proof.
+  intros Hr Hn Hc. cbv zeta.
+  pose proof (C12_capture_segment _ _ _ _ Hr Hn) as [Hb H].
+  assert (Hnr : ~ In ORecv seg -> received (skipn (S (length pre)) rs) = []).
+  { intro Hnr. apply crun_app in Hr as (c1 & rs1 & rs2 & H1 & H2 & -> & Hl).
+    apply crun_cons in H2 as (c2 & x & rs' & Hs & H2 & ->).
+    rewrite (skipn_seg _ _ _ _ Hl). eapply no_recv_nothing_received; eauto. }
+  destruct (first_posted (existsb is_close pre) seg) as [r|].
+  - exists r. split; [reflexivity|]. destruct H as [Hp [[H1 H2]|[H1 H2]]].
+    + split; [|intros _; exact H2]. left. split; [exact H2|]. split; [exact H1|].
+      destruct c as [b p ml cl]. simpl in *. subst. reflexivity.
+    + assert (Hin : In ORecv seg).
+      { destruct (in_dec (fun a b : cop => ltac:(decide equality; decide equality) : {a = b} + {a <> b}) ORecv seg)
+          as [Hin|Hnin]; [exact Hin|]. rewrite (Hnr Hnin) in H1. discriminate H1. }
+      split; [right; auto|]. intro Hnin. contradiction.
+  - destruct H as (_ & _ & _ & Hf). congruence.
+Qed.
+Print Assumptions C12_closed_wait_has_message.
+
+Example C12_closed_never_waits_ex :
+  crun cap0 [OCloseReq; OCapture; ORecv; ORelease] =
+    Some (mkCap false false None true, [CBool false; CNone; CReason RTimeout; CNone]) /\
+  crun cap0 [OCloseReq; OCapture] = Some (mkCap true true (Some RTimeout) true, [CBool false; CNone]) /\
+  crun cap0 [OCapture; OCloseReq] = Some (mkCap true true (Some RTimeout) true, [CNone; CBool true]) /\
+  crun cap0 [OCapture; OCloseReq; ORecv] = Some (mkCap true true None true, [CNone; CBool true; CReason RTimeout]) /\
+  cstep (mkCap false false None true) OCapture = Some (mkCap true true (Some RTimeout) true, CNone).
+Proof. vm_compute. repeat split. Qed.
+
+(* ---------- 3c. close request and capture, in both orders ---------- *)
+(* the race that was repaired: whichever of the two comes first, a message ends up in the mailbox *)
+Theorem C12_close_then_capture c :
+  c_blocked c = false -> c_pending c = false -> c_mail c = None ->
+  cstep c OCloseReq = Some (mkCap false false None true, CBool false) /\
+  cstep (mkCap false false None true) OCapture = Some (mkCap true true (Some RTimeout) true, CNone) /\
+  crun c [OCloseReq; OCapture] = Some (mkCap true true (Some RTimeout) true, [CBool false; CNone]).
+Proof.
+  intros Hb Hp Hm. destruct c as [b p ml cl]. simpl in *. subst. repeat split.
+Qed.
+Print Assumptions C12_close_then_capture.
+
+Theorem C12_capture_then_close c :
+  c_blocked c = false -> c_pending c = false -> c_mail c = None ->
+  (exists c1, cstep c OCapture = Some (c1, CNone) /\
+              cstep c1 OCloseReq = Some (mkCap true true (Some RTimeout) true, CBool true)) /\
+  crun c [OCapture; OCloseReq] = Some (mkCap true true (Some RTimeout) true, [CNone; CBool true]).
+Proof.
+  intros Hb Hp Hm. destruct c as [b p ml cl]. simpl in *. subst.
+  destruct cl; (split; [eexists; split; reflexivity | reflexivity]).
+Qed.
+Print Assumptions C12_capture_then_close.
+
+(* both orders end in the same state, in which the blocking command's ORecv yields RTimeout;
+   a CLIENT UNBLOCK r that slips in between capture and close request wins instead *)
+Corollary C12_close_capture_confluent c :
+  c_blocked c = false -> c_pending c = false -> c_mail c = None ->
+  exists c', (exists rs, crun c [OCloseReq; OCapture] = Some (c', rs)) /\
+             (exists rs, crun c [OCapture; OCloseReq] = Some (c', rs)) /\
+             cstep c' ORecv = Some (mkCap true true None true, CReason RTimeout).
+Proof.
+  intros Hb Hp Hm. exists (mkCap true true (Some RTimeout) true).
+  destruct (C12_close_then_capture c Hb Hp Hm) as (_ & _ & H1).
+  destruct (C12_capture_then_close c Hb Hp Hm) as (_ & H2).
+  split; [eexists; exact H1|]. split; [eexists; exact H2|]. reflexivity.
+Qed.
+Print Assumptions C12_close_capture_confluent.
+
+Theorem C12_capture_unblock_close c r :
+  c_blocked c = false -> c_pending c = false -> c_mail c = None -> c_closing c = false ->
+  crun c [OCapture; OUnblock r; OCloseReq] = Some (mkCap true true (Some r) true, [CNone; CBool true; CBool true]).
+Proof.
+  intros Hb Hp Hm Hc. destruct c as [b p ml cl]. simpl in *. subst. reflexivity.
+Qed.
+Print Assumptions C12_capture_unblock_close.
+
+Example C12_close_capture_ex :
+  crun cap0 [OCloseReq; OCapture; ORecv; ORelease] =
+    Some (mkCap false false None true, [CBool false; CNone; CReason RTimeout; CNone]) /\
+  crun cap0 [OCapture; OCloseReq; ORecv; ORelease] =
+    Some (mkCap false false None true, [CNone; CBool true; CReason RTimeout; CNone]) /\
+  crun cap0 [OCapture; OUnblock RError; OCloseReq; ORecv; ORelease] =
+    Some (mkCap false false None true, [CNone; CBool true; CBool true; CReason RError; CNone]).
+Proof. vm_compute. repeat split. Qed.
+
+(* ---------- 3d. after a release ---------- *)
+(* a connection that was never captured, with the given closing flag; [fresh false] is [cap0] and
+   [fresh true] is [cap0] after a close request *)
+Definition fresh (closing : bool) : cap := mkCap false false None closing.
+
+Lemma fresh_false : fresh false = cap0. Proof. reflexivity. Qed.
+Lemma fresh_true : cstep cap0 OCloseReq = Some (fresh true, CBool false). Proof. reflexivity. Qed.
+
 (* Messages never cross a release: ending the block (timeout, data arrived, unblock, teardown)
-   resets the record to the initial state, so the connection can block again and a later block
-   cannot be ended by an earlier CLIENT UNBLOCK. *)
+   resets the record to the initial state EXCEPT for the closing flag, which is kept (the
+   statement of before the repair, [c' = mkCap false false None], is false now when
+   [c_closing c = true]). So a later block cannot be ended by an earlier CLIENT UNBLOCK; the
+   connection can block again, and if it was asked to close, that block ends at once. *)
 Theorem C12_reusable c c' x :
   cstep c ORelease = Some (c', x) ->
-  c' = mkCap false false None /\ x = CNone /\
-  cstep c' OCapture = Some (mkCap true false None, CNone) /\
+  c' = fresh (c_closing c) /\ x = CNone /\
+  cstep c' OCapture =
+    Some (if c_closing c then mkCap true true (Some RTimeout) true else mkCap true false None false, CNone) /\
   cstep c' ORecv = None /\
-  (forall r, cstep c' (OUnblock r) = Some (c', CBool false)).
+  (forall r, cstep c' (OUnblock r) = Some (c', CBool false)) /\
+  cstep c' OCloseReq = Some (fresh true, CBool false) /\
+  (c_closing c = false -> c' = cap0).
 Proof.
   unfold cstep at 1. destruct (c_blocked c); [|discriminate]. intro H; inversion H; subst.
-  repeat split; reflexivity.
+  destruct (c_closing c); repeat split; try reflexivity; discriminate.
 Qed.
 Print Assumptions C12_reusable.
 
 (* after a complete block (capture ... release) the next block starts from scratch: whatever
-   happened before, the state after ORelease is the initial one, hence every later behaviour is
-   a behaviour of a fresh connection *)
+   happened before, the state after ORelease is that of a fresh connection with the same closing
+   flag — set iff [pre] contains a close request — hence every later behaviour is a behaviour of
+   a fresh connection (if no close request was issued: of [cap0], as before the repair) or of a
+   fresh connection that was asked to close. *)
 Theorem C12_block_again pre rest c rs :
   crun cap0 (pre ++ ORelease :: rest) = Some (c, rs) ->
-  exists rs1 rs2, crun cap0 rest = Some (c, rs2) /\ rs = rs1 ++ CNone :: rs2 /\ length rs1 = length pre.
+  exists rs1 rs2,
+    crun (fresh (existsb is_close pre)) rest = Some (c, rs2) /\
+    rs = rs1 ++ CNone :: rs2 /\ length rs1 = length pre /\
+    (existsb is_close pre = false -> crun cap0 rest = Some (c, rs2)) /\
+    (existsb is_close pre = true -> crun cap0 (OCloseReq :: rest) = Some (c, CBool false :: rs2)).
 Proof.
   intro Hr. apply crun_app in Hr as (c1 & rs1 & rs2 & H1 & H2 & -> & Hl).
   apply crun_cons in H2 as (c2 & x & rs' & Hs & H2 & ->).
-  apply C12_reusable in Hs as (-> & -> & _). exists rs1, rs'. auto.
+  apply C12_reusable in Hs as (-> & -> & _).
+  pose proof (crun_closing _ _ _ _ H1) as Hcl. simpl in Hcl. rewrite Hcl in H2.
+  exists rs1, rs'. split; [exact H2|]. split; [reflexivity|]. split; [exact Hl|]. split.
+  - intro He. rewrite He in H2. exact H2.
+  - intro He. rewrite He in H2. cbn [crun]. rewrite fresh_true, H2. reflexivity.
 Qed.
 Print Assumptions C12_block_again.
+
+Example C12_block_again_ex :
+  crun cap0 ([OCapture; OUnblock RError; ORecv] ++ ORelease :: [OCapture; OIsBlocked])
+  = Some (mkCap true false None false, [CNone; CBool true; CReason RError; CNone; CNone; CBool true]) /\
+  crun cap0 [OCapture; OIsBlocked] = Some (mkCap true false None false, [CNone; CBool true]) /\
+  crun cap0 ([OCapture; OCloseReq; ORecv] ++ ORelease :: [OCapture; OIsBlocked; ORecv])
+  = Some (mkCap true true None true,
+          [CNone; CBool true; CReason RTimeout; CNone; CNone; CBool true; CReason RTimeout]) /\
+  crun (fresh true) [OCapture; OIsBlocked; ORecv]
+  = Some (mkCap true true None true, [CNone; CBool true; CReason RTimeout]).
+Proof. vm_compute. repeat split. Qed.
 
 (* ---------- 4. IsBlocked is pure; nothing wedges ---------- *)
 Theorem C12_isblocked_pure c : cstep c OIsBlocked = Some (c, CBool (c_blocked c)).
 Proof. reflexivity. Qed.
 Print Assumptions C12_isblocked_pure.
 
-(* CLIENT UNBLOCK and CLIENT LIST issued by other goroutines are enabled in every state (they
-   never wait: the mailbox send cannot block), and each op is either enabled or refused
-   deterministically because [cstep] is a function. *)
+(* CLIENT UNBLOCK, the teardown and CLIENT LIST issued by other goroutines are enabled in every
+   state (they never wait: the mailbox send cannot block), and each op is either enabled or
+   refused deterministically because [cstep] is a function. (Before the repair the third clause
+   read [Some (cap0, CNone)]; the release keeps the closing flag now.) *)
 Theorem C12_no_wedge c :
   (forall r, exists c', cstep c (OUnblock r) = Some (c', CBool (c_blocked c))) /\
+  (exists c', cstep c OCloseReq = Some (c', CBool (c_blocked c))) /\
   cstep c OIsBlocked = Some (c, CBool (c_blocked c)) /\
-  (c_blocked c = true -> cstep c ORelease = Some (cap0, CNone)) /\
-  (c_blocked c = false -> exists c', cstep c OCapture = Some (c', CNone)).
+  (c_blocked c = true -> cstep c ORelease = Some (fresh (c_closing c), CNone)) /\
+  (c_blocked c = false -> exists c', cstep c OCapture = Some (c', CNone)) /\
+  (c_blocked c = true -> c_mail c <> None -> exists c' r, cstep c ORecv = Some (c', CReason r)).
 Proof.
-  split; [|split; [reflexivity|split]].
+  split; [|split; [|split; [reflexivity|split; [|split]]]].
   - intro r. unfold cstep. destruct (c_blocked c); [destruct (c_pending c)|]; eauto.
+  - unfold cstep. destruct (c_blocked c); [destruct (c_pending c)|]; eauto.
   - intro Hb. unfold cstep. rewrite Hb. reflexivity.
-  - intro Hb. unfold cstep. rewrite Hb. eauto.
+  - intro Hb. unfold cstep. rewrite Hb. destruct (c_closing c && negb (c_pending c)); eauto.
+  - intros Hb Hm. unfold cstep. rewrite Hb. destruct (c_mail c) as [r|]; [eauto|congruence].
 Qed.
 Print Assumptions C12_no_wedge.
 
+Example C12_no_wedge_ex :
+  cstep (mkCap true true (Some RError) true) OCloseReq = Some (mkCap true true (Some RError) true, CBool true) /\
+  cstep (mkCap true true None true) ORelease = Some (fresh true, CNone) /\
+  cstep (mkCap true false None false) ORelease = Some (cap0, CNone).
+Proof. vm_compute. repeat split. Qed.
+
+(* OCloseReq is NOT an observer: it changes [c_closing] (and thereby the next capture) *)
 Definition is_observer (o : cop) : bool := match o with OUnblock _ | OIsBlocked => true | _ => false end.
 
-(* any burst of operations by other goroutines is executable from any state, keeps the
-   invariant, and never changes whether the client is blocked *)
+Example C12_close_not_observer : is_observer OCloseReq = false. Proof. reflexivity. Qed.
+
+(* any burst of observing operations by other goroutines is executable from any state, keeps the
+   invariant, and never changes whether the client is blocked nor whether the connection is closing *)
 Theorem C12_observers_harmless os : forall c,
   forallb is_observer os = true ->
-  exists c' rs, crun c os = Some (c', rs) /\ c_blocked c' = c_blocked c /\ (cap_inv c -> cap_inv c').
+  exists c' rs, crun c os = Some (c', rs) /\ c_blocked c' = c_blocked c /\ (cap_inv c -> cap_inv c') /\
+                c_closing c' = c_closing c.
 Proof.
   induction os as [|o os IH]; intros c Ho.
   - exists c, []. simpl. auto.
   - simpl in Ho. apply andb_true_iff in Ho as [Ho1 Ho2].
-    assert (Hs : exists c1 x, cstep c o = Some (c1, x) /\ c_blocked c1 = c_blocked c).
-    { destruct o as [| | |r|]; try discriminate.
+    assert (Hs : exists c1 x, cstep c o = Some (c1, x) /\ c_blocked c1 = c_blocked c /\ c_closing c1 = c_closing c).
+    { destruct o as [| | |r| |]; try discriminate.
       - unfold cstep. destruct (c_blocked c) eqn:Hb; [destruct (c_pending c)|]; eauto.
       - simpl. eauto. }
-    destruct Hs as (c1 & x & Hs & Hb). destruct (IH c1 Ho2) as (c' & rs & Hr & Hb' & Hi).
+    destruct Hs as (c1 & x & Hs & Hb & Hc). destruct (IH c1 Ho2) as (c' & rs & Hr & Hb' & Hi & Hc').
     exists c', (x :: rs). simpl. rewrite Hs, Hr. split; [reflexivity|]. split; [congruence|].
-    intro Hc. apply Hi. eapply cstep_inv; eauto.
+    split; [|congruence]. intro Hcap. apply Hi. eapply cstep_inv; eauto.
 Qed.
 Print Assumptions C12_observers_harmless.
+
+(* the same for everything other goroutines can do, the teardown included: executable from any
+   state, keeps the invariant, never changes whether the client is blocked; the closing flag is
+   set iff it was set or the burst contains a close request *)
+Definition is_foreign (o : cop) : bool :=
+  match o with OUnblock _ | OIsBlocked | OCloseReq => true | _ => false end.
+
+Theorem C12_foreign_harmless os : forall c,
+  forallb is_foreign os = true ->
+  exists c' rs, crun c os = Some (c', rs) /\ c_blocked c' = c_blocked c /\ (cap_inv c -> cap_inv c') /\
+                c_closing c' = c_closing c || existsb is_close os.
+Proof.
+  induction os as [|o os IH]; intros c Ho.
+  - exists c, []. simpl. rewrite orb_false_r. auto.
+  - simpl in Ho. apply andb_true_iff in Ho as [Ho1 Ho2].
+    assert (Hs : exists c1 x, cstep c o = Some (c1, x) /\ c_blocked c1 = c_blocked c).
+    { destruct o as [| | |r| |]; try discriminate.
+      - unfold cstep. destruct (c_blocked c) eqn:Hb; [destruct (c_pending c)|]; eauto.
+      - unfold cstep. destruct (c_blocked c) eqn:Hb; [destruct (c_pending c)|]; eauto.
+      - simpl. eauto. }
+    destruct Hs as (c1 & x & Hs & Hb). destruct (IH c1 Ho2) as (c' & rs & Hr & Hb' & Hi & Hc').
+    exists c', (x :: rs). simpl. rewrite Hs, Hr. split; [reflexivity|]. split; [congruence|].
+    split; [intro Hcap; apply Hi; eapply cstep_inv; eauto|].
+    rewrite Hc', (cstep_closing _ _ _ _ Hs), orb_assoc. reflexivity.
+Qed.
+Print Assumptions C12_foreign_harmless.
+
+Example C12_foreign_harmless_ex :
+  crun (mkCap true false None false) [OIsBlocked; OCloseReq; OUnblock RError; OCloseReq; OIsBlocked]
+  = Some (mkCap true true (Some RTimeout) true, [CBool true; CBool true; CBool true; CBool true; CBool true]).
+Proof. vm_compute. reflexivity. Qed.
 
 (* ---------- 5. timeouts ---------- *)
 Definition ns_per_s : Q := 1000000000 # 1.
